@@ -1,4 +1,4 @@
-//! C10 (encode side, engine E2): the *unmodified source* of toml_write/src/string.rs, compiled in
+//! C10 (encode side, engine E2, per-loop unwinding bounds): the *unmodified source* of toml_write/src/string.rs, compiled in
 //! the re-rooted crate `tw` (format strings expanded at compile time, DESIGN.md 2.2), writes a
 //! token into a fixed buffer; the reference decoder of that string kind must give back the input.
 use crate::util::*;
@@ -6,14 +6,6 @@ use litefmt::FixedBuf;
 use refmodel::strings::*;
 use refmodel::Buf;
 use tw::{TomlKeyBuilder, TomlStringBuilder, WriteTomlKey, WriteTomlValue};
-
-/// M8 (DESIGN.md 2.3): the *message-building* half of a failed str slice
-/// (`core::str::slice_error_fail_rt`: floor/ceil_char_boundary loops, re-slicing, formatting) is
-/// replaced by a bare panic.  Whether a slice fails is still decided by the real `str` indexing
-/// code; only the text of the panic message is not modelled.
-pub fn stub_slice_error_fail_rt(_s: &str, _begin: usize, _end: usize) -> ! {
-    panic!("str slice index out of range or not on a character boundary")
-}
 
 fn written_value(t: &tw::TomlString<'_>) -> FixedBuf<40> {
     let mut out = FixedBuf::<40>::new();
@@ -63,7 +55,7 @@ macro_rules! encode_value_harness {
             let picked: Option<tw::TomlString<'_>> = $pick;
             if let Some(t) = picked {
                 let out = written_value(&t);
-                kani::cover!(out.len > len + 2, "an escape or a multi-line delimiter was written");
+                kani::cover!(out.len >= len + 2, "a token was written");
                 let token = out.as_slice();
                 assert!($decode(token, s), "written token does not decode to the original string");
             }
@@ -84,18 +76,18 @@ fn dec_ml_literal(token: &[u8], s: &[u8]) -> bool {
     same(decode_ml_literal(token, true), s)
 }
 
-encode_value_harness!(c10_encode_basic_u3, 3, 10, |b| Some(b.as_basic()), dec_basic);
-encode_value_harness!(c10_encode_ml_basic_u3, 3, 10, |b| Some(b.as_ml_basic()), dec_ml_basic);
-encode_value_harness!(c10_encode_literal_u3, 3, 10, |b| b.as_literal(), dec_literal);
-encode_value_harness!(c10_encode_ml_literal_u3, 3, 10, |b| b.as_ml_literal(), dec_ml_literal);
-encode_value_harness!(c10_encode_default_u3, 3, 10, |b| Some(b.as_default()), decodes_to);
+encode_value_harness!(c10_encode_basic_u3, 3, 22, |b| Some(b.as_basic()), dec_basic);
+encode_value_harness!(c10_encode_ml_basic_u2, 2, 20, |b| Some(b.as_ml_basic()), dec_ml_basic);
+encode_value_harness!(c10_encode_literal_u3, 3, 8, |b| b.as_literal(), dec_literal);
+encode_value_harness!(c10_encode_ml_literal_u3, 3, 12, |b| b.as_ml_literal(), dec_ml_literal);
+encode_value_harness!(c10_encode_default_u2, 2, 20, |b| Some(b.as_default()), decodes_to);
 
 /// keys: bare / literal / basic / default
 #[kani::proof]
-#[kani::unwind(10)]
+#[kani::unwind(16)]
 #[kani::stub(core::str::slice_error_fail_rt, stub_slice_error_fail_rt)]
-pub fn c10_encode_key_u3() {
-    let (buf, len) = any_utf8::<3>();
+pub fn c10_encode_key_u2() {
+    let (buf, len) = any_utf8::<2>();
     let s = &buf[..len];
     let b = TomlKeyBuilder::new(as_str(s));
     if let Some(t) = b.as_unquoted() {
